@@ -151,7 +151,7 @@ def run(ctx, rep):
         for bb, i, s in w:
             e = E.arith_norm(E.strip_casts(fc.rv_expr(s)))
             for z in E.walk(e):
-                if z[0] in ("bin", "ckd") and z[1] == "Add" and E.strip_casts(z[3]) == ("const", 4):
+                if z[0] in ("bin", "ckd") and z[1] == "Add" and ("const", 4) in (E.strip_casts(z[3]), E.strip_casts(z[2])):
                     adv = True
         add("R13c", "a parameter advances the position by its length + 4", adv, "position update is not `+= length + 4`")
     k = 0
